@@ -30,7 +30,9 @@ UNIVERSES = {
     # a state point key spelled like the link name: the link of one job and a directory of another compete for one path
     "job-key": [{"a": 1}, {"a": 1, "job": 2}, {"a": 2, "job": 3}],
 }
-PATH_SPECS = ["id/{job.id}", "const", "a/{a}"]
+# "a/{b}" spells the same directories as "a/{a}" wherever the values of a and b are permutations of each other:
+# re-running with the other spec keeps every view path and changes every target
+PATH_SPECS = ["id/{job.id}", "const", "a/{a}", "a/{b}"]
 
 
 def flat(sp, prefix=None):
@@ -63,6 +65,10 @@ def reference_links(selected, path):
                 if "a" not in sp:
                     return "reject", "path spec names a key the job lacks"
                 paths[jid] = os.path.join("a", str(sp["a"]))
+            elif path == "a/{b}":
+                if "b" not in sp:
+                    return "reject", "path spec names a key the job lacks"
+                paths[jid] = os.path.join("a", str(sp["b"]))
         if len(set(paths.values())) != len(paths):
             return "reject", "non-unique path specification"
         return "exact", {jid: os.path.normpath(os.path.join(p, "job")) for jid, p in paths.items()}
